@@ -3,8 +3,9 @@
    Executable definitions only.
 
    What is modelled: which fields are written and in which order, externally tagged enums,
-   Option, #[serde(skip)], #[serde(from = ..)] rebuild-on-load (NamedCal, FXRates) with their
-   expect/unwrap sites, the derived visit_map / visit_seq of structs (unknown keys ignored,
+   Option, #[serde(skip)], #[serde(try_from = ..)] validation / rebuild on load (NamedCal, FXRates
+   rebuilt from name / quotes; Dual, Dual2, PPSpline validated; NodesTimestamp sorted), the derived
+   visit_map / visit_seq of structs (unknown keys ignored,
    duplicate field = error, missing field = error unless Option, FIRST failure in document order
    wins: this matters because a nested rebuild can abort), ndarray's own (de)serialiser
    ({"v":1,"dim":[..],"data":[..]}, unknown key = error, duplicates silently overwrite, size check),
@@ -214,7 +215,8 @@ Definition dec_dual (j : json) : outcome (dual T) :=
   do r <- req dec_f64 (slot sl 0);
   do v <- req dec_vars (slot sl 1);
   do d <- req (dec_arr1 dec_f64) (slot sl 2);
-  Ok (mkDual r v d).
+  (* TryFrom<DualDataModel> dual.rs: |vars| = |dual| *)
+  if Nat.eqb (List.length v) (List.length d) then Ok (mkDual r v d) else Err.
 
 (* a loaded Dual2 keeps the stored array shape (an ndarray can be 0 x c) *)
 Record jdual2 := mkJD2 { j2_re : T; j2_vars : list name; j2_du : list T; j2_dd : arr2 }.
@@ -226,7 +228,10 @@ Definition dec_dual2 (j : json) : outcome jdual2 :=
   do v <- req dec_vars (slot sl 1);
   do d <- req (dec_arr1 dec_f64) (slot sl 2);
   do dd <- req dec_arr2 (slot sl 3);
-  Ok (mkJD2 r v d dd).
+  (* TryFrom<Dual2DataModel> dual.rs: |vars| = |dual| and dual2 is |vars| x |vars| *)
+  let n := Z.of_nat (List.length v) in
+  if Nat.eqb (List.length v) (List.length d) && (a_rows dd =? n) && (a_cols dd =? n)
+  then Ok (mkJD2 r v d dd) else Err.
 (* to / from the operational model of Model/Dual.v *)
 Definition dual2_of_j (d : jdual2) : dual2 T :=
   mkDual2 (j2_re d) (j2_vars d) (j2_du d) (chunk (Z.to_nat (a_cols (j2_dd d))) (Z.to_nat (a_rows (j2_dd d))) (a_data (j2_dd d))).
@@ -296,16 +301,15 @@ Definition dec_ucal (j : json) : outcome ucal :=
   Ok (mkUCal c s).
 
 (* NamedCal: only `name` is written (#[serde(skip)] union_cal); loading goes through
-   NamedCalDataModel { name } and From<NamedCalDataModel>, i.e. try_new(name).expect(..) *)
+   NamedCalDataModel { name } and TryFrom<NamedCalDataModel>, i.e. try_new(name) *)
 Definition k_name := s2n "name".
 Definition enc_named (n : namedcal) : json := enc_struct [k_name] [JStr (n_name n)].
 Definition dec_named_model (j : json) : outcome name :=
   do sl <- fields_of [k_name] [chk dec_str] j; req dec_str (slot sl 0).
 
 Section Rebuild.
-  (* the two load-time reconstructions, as parameters: the code on the pinned tree turns a
-     rejected reconstruction into an abort (`rebuild_*_expect`), a `serde(try_from)` variant
-     would turn it into an error (`rebuild_*_try`) *)
+  (* the two load-time reconstructions, as parameters (instantiated below by rebuild_named /
+     rebuild_fx); the generic statements say the loader aborts only if a reconstruction does *)
   Variable rebuild_named : name -> outcome namedcal.
 
   Definition dec_named (j : json) : outcome namedcal :=
@@ -351,6 +355,14 @@ Section Rebuild.
   Definition enc_imap {V} (e : V -> json) (m : list (Z * V)) : json :=
     JObj (map (fun kv => (KInt (fst kv), e (snd kv))) m).
 
+  (* IndexMap::sort_keys (keys are unique): stable insertion by key *)
+  Fixpoint ins_key {V} (kv : Z * V) (m : list (Z * V)) : list (Z * V) :=
+    match m with
+    | [] => [kv]
+    | x :: r => if fst kv <? fst x then kv :: m else x :: ins_key kv r
+    end.
+  Definition sort_keys {V} (m : list (Z * V)) : list (Z * V) := fold_right ins_key [] m.
+
   Inductive jnodes := NdF (m : list (Z * T)) | NdD (m : list (Z * dual T)) | NdD2 (m : list (Z * jdual2)).
   Definition enc_nodes (n : jnodes) : json :=
     match n with
@@ -358,10 +370,11 @@ Section Rebuild.
     | NdD m => JObj [(KStr k_Dual, enc_imap enc_dual m)]
     | NdD2 m => JObj [(KStr k_Dual2, enc_imap enc_dual2 m)]
     end.
+  (* From<NodesTimestampDataModel> nodes.rs: the keys are sorted on load, as CurveDF::try_new does *)
   Definition dec_nodes : json -> outcome jnodes :=
-    dec_tagged [(k_F64, fun j => omap NdF (dec_imap dec_f64 j));
-                (k_Dual, fun j => omap NdD (dec_imap dec_dual j));
-                (k_Dual2, fun j => omap NdD2 (dec_imap dec_dual2 j))].
+    dec_tagged [(k_F64, fun j => omap (fun m => NdF (sort_keys m)) (dec_imap dec_f64 j));
+                (k_Dual, fun j => omap (fun m => NdD (sort_keys m)) (dec_imap dec_dual j));
+                (k_Dual2, fun j => omap (fun m => NdD2 (sort_keys m)) (dec_imap dec_dual2 j))].
 
   (* the six interpolators are field-less braced structs: {} (any keys ignored) or [] *)
   Definition dec_empty_struct (j : json) : outcome unit :=
@@ -448,6 +461,12 @@ Section Rebuild.
   (* ---------------------------------------------------------------- splines *)
   Record jspline (X : Type) := mkJSp { sp_k : Z; sp_t : list T; sp_c : option (list X); sp_n : Z }.
   Arguments mkJSp {X}. Arguments sp_k {X}. Arguments sp_t {X}. Arguments sp_c {X}. Arguments sp_n {X}.
+  (* zip(&t[1..], &t[..len-1]).all(|(a, b)| a >= b) *)
+  Fixpoint nondecr (t : list T) : bool :=
+    match t with
+    | a :: (b :: _) as r => nleb a b && nondecr r
+    | _ => true
+    end.
   Definition k_k := s2n "k". Definition k_t := s2n "t". Definition k_c := s2n "c". Definition k_n := s2n "n".
   Definition spline_fields := [k_k; k_t; k_c; k_n].
   Definition enc_pp {X} (e : X -> json) (s : jspline X) : json :=
@@ -460,7 +479,9 @@ Section Rebuild.
     do t <- req (dec_seq dec_f64) (slot sl 1);
     do c <- optf (dec_arr1 d) (slot sl 2);
     do n <- req dec_usize (slot sl 3);
-    Ok (mkJSp k t c n).
+    (* TryFrom<PPSplineDataModel<T>> spline.rs: what PPSpline::new asserts, and n = |t| - k *)
+    let lt := Z.of_nat (List.length t) in
+    if (1 <? lt) && nondecr t && (k <=? lt) && (n =? lt - k) then Ok (mkJSp k t c n) else Err.
   Definition enc_spline {X} (e : X -> json) (s : jspline X) : json := enc_struct [k_inner] [enc_pp e s].
   Definition dec_spline {X} (d : json -> outcome X) (j : json) : outcome (jspline X) :=
     do sl <- fields_of [k_inner] [chk (dec_pp d)] j; req (dec_pp d) (slot sl 0).
@@ -509,33 +530,24 @@ Section Rebuild.
 End Rebuild.
 
 (* ------------------------------------------------------------------ the reconstructions *)
-Definition expect {A} (o : outcome A) : outcome A := match o with Ok a => Ok a | _ => Panic end.
-
-(* From<NamedCalDataModel> calendar.rs:104-108 *)
-Definition rebuild_named_expect (s : name) : outcome namedcal := expect (named_try_new s).
-Definition rebuild_named_try (s : name) : outcome namedcal := named_try_new s.
+(* TryFrom<NamedCalDataModel> calendar.rs: try_new(name), its error returned *)
+Definition rebuild_named (s : name) : outcome namedcal := named_try_new s.
 
 Definition fxrate_of_j (r : jfxrate) : fxrate T :=
   mkRate (mkPair (fr_lhs r) (fr_rhs r)) (num_of_j (fr_rate r)) (fr_settle r).
-(* From<FXRatesDataModel> fx/rates/mod.rs:43-48: currencies.first().unwrap(), then
-   try_new(fx_rates, Some(base)).expect(..) *)
+(* TryFrom<FXRatesDataModel> fx/rates/mod.rs: no currency = error; otherwise
+   try_new(fx_rates, Some(first currency)), its error returned *)
 Definition fx_build (d : jfxdata) (base : name) : outcome jfx :=
   do f <- fx_try_new (map fxrate_of_j (fd_rates d)) (Some base);
   Ok (mkJFx (fd_rates d) (currencies f) (fx_array f)).
-Definition rebuild_fx_expect (d : jfxdata) : outcome jfx :=
-  match fd_ccys d with
-  | [] => Panic
-  | base :: _ => expect (fx_build d base)
-  end.
-Definition rebuild_fx_try (d : jfxdata) : outcome jfx :=
+Definition rebuild_fx (d : jfxdata) : outcome jfx :=
   match fd_ccys d with
   | [] => Err
   | base :: _ => fx_build d base
   end.
 
-(* the loader of the pinned tree, and the `serde(try_from)` variant *)
-Definition from_json_model : json -> outcome obj := dec_obj rebuild_named_expect rebuild_fx_expect.
-Definition from_json_try : json -> outcome obj := dec_obj rebuild_named_try rebuild_fx_try.
+(* from_json of json_py.rs, on trees *)
+Definition from_json_model : json -> outcome obj := dec_obj rebuild_named rebuild_fx.
 
 End Json.
 Arguments json T : clear implicits.
